@@ -214,6 +214,7 @@ class Simulation(object):
 class MyokitFacade(object):
     Simulation = Simulation
     Protocol = Protocol
+    ProtocolEvent = Event
     pacing = _Pacing()
 
     def __getattr__(self, name):
